@@ -74,6 +74,11 @@ def main():
     os.makedirs(out, exist_ok=True)
     for f in ('patch.diff', 'demo.py'):
       shutil.copy(os.path.join(d, f), os.path.join(out, f))
+    rebased = os.path.exists(os.path.join(d, 'patch.orig.diff'))
+    if rebased:
+      # a later fix: commit touched the same lines; the same change was re-made on the new
+      # code (demo re-confirmed); the tester's original patch is kept alongside
+      shutil.copy(os.path.join(d, 'patch.orig.diff'), os.path.join(out, 'patch.orig.diff'))
     det = ev.get('detection', {})
     m = {
         'property': meta.get('property', name.split('-')[0]),
@@ -93,6 +98,7 @@ def main():
         },
         'detection': {k: {'detected': v['detected'], 'mechanisms': v['mechanisms'], 'wall_s': v['wall_s']} for k, v in det.items()},
         'history': HISTORY.get(name),
+        'rebased_onto_later_fix_commits': rebased,
         'authors_test_notes': meta.get('tests_run'),
     }
     json.dump(m, open(os.path.join(out, 'meta.json'), 'w'), indent=1, ensure_ascii=False)
